@@ -1,4 +1,5 @@
 """C08 — measurement uncertainties propagate consistently and stay non-negative."""
+import copy
 import numpy as np
 from hypothesis import strategies as st
 
@@ -103,7 +104,8 @@ def conv_case(draw):
     a = draw(operand(allow_exact=False))
     # the error may be set afterwards with the in-place setter, as a Python int (stays an int until the conversion)
     int_abse = draw(st.sampled_from([None, None, None, 1, 5, 50]))
-    return {"kind": "conv", "u": u, "v": w, "a": a, "int_abse": int_abse, "rebase": draw(st.integers(0, 4)) == 0}
+    return {"kind": "conv", "u": u, "v": w, "a": a, "int_abse": int_abse, "rebase": draw(st.integers(0, 4)) == 0,
+            "rele_first": draw(st.integers(0, 3)) == 0}
 
 
 @st.composite
@@ -353,6 +355,15 @@ def check_conv(case, v):
         q.abse(int(case["int_abse"]))
         a = {"x": a["x"], "e": float(case["int_abse"]) * R.factor_of_expression(q.units()) / fu}
         v.label("int_error_by_setter")
+    if case.get("rele_first") and not case.get("int_abse") and not isinstance(a["e"], list) and a["e"] is not None:
+        # the uncertainty was first given as a percentage and then overridden with the absolute number: the later call counts
+        try:
+            e_prev = copy.deepcopy(q.abse())
+            q.rele(10.0)
+            q.abse(e_prev)
+            v.label("relative_error_overridden_by_absolute")
+        except ZeroDivisionError:
+            q = Quantity(_mk(a), tu)
     # Quantity(x,u) folds a dimensionless compound: the error must be folded with the same factor as the value
     if not _eq(_np(q.abse()) * R.factor_of_expression(q.units()), _err(a) * fu):
         return v.fail("constructor-error", f"Quantity({a['x']!r}+-{a['e']!r},{tu!r}) reports abse {q.abse()!r} {q.units()}: "
